@@ -40,7 +40,8 @@ Arguments DErr {A} e.
 
 (** [validator=] / [converter=]: nothing, one callable, a list literal, or a list
     object the caller keeps (index into [w_lists]). *)
-Inductive seqarg := SNone | SOne (s : sym) | SLit (l : list sym) | SList (id : nat).
+Inductive seqarg := SNone | SOne (s : sym) | SLit (l : list sym) | SList (id : nat)
+                   | SConv (id : nat).   (* an attrs.Converter(...) INSTANCE the caller keeps *)
 Inductive hookarg := HANone | HANoOp | HASeq (a : seqarg).
 Inductive metaarg := MANone | MALit (ks : list string) | MADict (id : nat).
 
@@ -172,6 +173,11 @@ Record cls_result := {
 
 Inductive cls_outcome := Raised (e : dexc) | Built (r : cls_result).
 
+(** An [attrs.Converter] instance: the wrapped callable, the two flags and the
+    (unused by the current code) [_global_name] slot. *)
+Record conv_obj := { cv_sym : sym; cv_takes_self : bool; cv_takes_field : bool;
+                     cv_global_name : option string }.
+
 (** ** The world *)
 
 Record world := {
@@ -181,33 +187,37 @@ Record world := {
   w_dicts : list pydict;            (* these / make_class attrs / class_body dicts *)
   w_lists : list (list sym);        (* validator / converter / hook lists *)
   w_metas : list (list string);     (* metadata dicts (keys) *)
+  w_convs : list conv_obj;          (* attrs.Converter instances *)
   w_defs : list cls_outcome }.      (* the classes defined so far, oldest first *)
 
 Definition empty_world (c : Z) : world :=
   {| w_counter := c; w_cas := []; w_decos := []; w_dicts := []; w_lists := []; w_metas := [];
-     w_defs := [] |}.
+     w_convs := []; w_defs := [] |}.
 
 Definition set_counter (w : world) (c : Z) : world :=
   {| w_counter := c; w_cas := w_cas w; w_decos := w_decos w; w_dicts := w_dicts w;
-     w_lists := w_lists w; w_metas := w_metas w; w_defs := w_defs w |}.
+     w_lists := w_lists w; w_metas := w_metas w; w_convs := w_convs w; w_defs := w_defs w |}.
 Definition set_cas (w : world) (x : list counting_attr) : world :=
   {| w_counter := w_counter w; w_cas := x; w_decos := w_decos w; w_dicts := w_dicts w;
-     w_lists := w_lists w; w_metas := w_metas w; w_defs := w_defs w |}.
+     w_lists := w_lists w; w_metas := w_metas w; w_convs := w_convs w; w_defs := w_defs w |}.
 Definition set_decos (w : world) (x : list deco) : world :=
   {| w_counter := w_counter w; w_cas := w_cas w; w_decos := x; w_dicts := w_dicts w;
-     w_lists := w_lists w; w_metas := w_metas w; w_defs := w_defs w |}.
+     w_lists := w_lists w; w_metas := w_metas w; w_convs := w_convs w; w_defs := w_defs w |}.
 Definition set_dicts (w : world) (x : list pydict) : world :=
   {| w_counter := w_counter w; w_cas := w_cas w; w_decos := w_decos w; w_dicts := x;
-     w_lists := w_lists w; w_metas := w_metas w; w_defs := w_defs w |}.
+     w_lists := w_lists w; w_metas := w_metas w; w_convs := w_convs w; w_defs := w_defs w |}.
 Definition set_lists (w : world) (x : list (list sym)) : world :=
   {| w_counter := w_counter w; w_cas := w_cas w; w_decos := w_decos w; w_dicts := w_dicts w;
-     w_lists := x; w_metas := w_metas w; w_defs := w_defs w |}.
+     w_lists := x; w_metas := w_metas w; w_convs := w_convs w; w_defs := w_defs w |}.
 Definition set_metas (w : world) (x : list (list string)) : world :=
   {| w_counter := w_counter w; w_cas := w_cas w; w_decos := w_decos w; w_dicts := w_dicts w;
-     w_lists := w_lists w; w_metas := x; w_defs := w_defs w |}.
+     w_lists := w_lists w; w_metas := x; w_convs := w_convs w; w_defs := w_defs w |}.
 Definition set_defs (w : world) (x : list cls_outcome) : world :=
   {| w_counter := w_counter w; w_cas := w_cas w; w_decos := w_decos w; w_dicts := w_dicts w;
-     w_lists := w_lists w; w_metas := w_metas w; w_defs := x |}.
+     w_lists := w_lists w; w_metas := w_metas w; w_convs := w_convs w; w_defs := x |}.
+Definition set_convs (w : world) (x : list conv_obj) : world :=
+  {| w_counter := w_counter w; w_cas := w_cas w; w_decos := w_decos w; w_dicts := w_dicts w;
+     w_lists := w_lists w; w_metas := w_metas w; w_convs := x; w_defs := w_defs w |}.
 
 Fixpoint set_nth {A : Type} (n : nat) (x : A) (l : list A) : list A :=
   match l, n with
@@ -235,6 +245,7 @@ Definition resolve_seq (w : world) (a : seqarg) : list sym :=
   | SOne s => [s]
   | SLit l => l
   | SList id => nth id (w_lists w) []
+  | SConv id => match nth_error (w_convs w) id with Some c => [cv_sym c] | None => [] end
   end.
 
 Definition resolve_hook (w : world) (a : hookarg) : on_setattr :=
@@ -680,6 +691,7 @@ Inductive op :=
 | ONewList (l : list sym)
 | ONewMeta (ks : list string)
 | ONewDict (d : pydict)
+| ONewConv (s : sym) (takes_self takes_field : bool)   (* keep attrs.Converter(s, ...) *)
 | OListAppend (id : nat) (s : sym)
 | OMetaSet (id : nat) (k : string)
 | OCaValidator (id : nat) (s : sym)         (* @shared.validator *)
@@ -705,6 +717,9 @@ Definition step (w : world) (o : op) : world :=
   | ONewList l => set_lists w (w_lists w ++ [l])
   | ONewMeta ks => set_metas w (w_metas w ++ [ks])
   | ONewDict d => set_dicts w (w_dicts w ++ [d])
+  | ONewConv s ts tf =>
+      set_convs w (w_convs w ++ [{| cv_sym := s; cv_takes_self := ts; cv_takes_field := tf;
+                                    cv_global_name := None |}])
   | OListAppend id s => set_lists w (set_nth id (nth id (w_lists w) [] ++ [s]) (w_lists w))
   | OMetaSet id k =>
       let m := nth id (w_metas w) [] in
@@ -748,6 +763,8 @@ Record fp := {
   fp_sig : option (list (string * bool * bool));   (* name, keyword-only, has default *)
   fp_pre : bool; fp_post : bool; fp_owninit : bool;
   fp_hashes : option bool;
+  fp_initconv : option (list (string * option (list sym)));  (* per field after construction:
+                                    which converters produced the stored value; None = never set *)
   fp_assign : list (string * asg) }.
 
 Inductive fprint := FExc (e : dexc) | FOk (f : fp).
@@ -805,6 +822,12 @@ Definition observe (w : world) (o : cls_outcome) : fprint :=
                        | KNone => false
                        | KAbsent => bi_hashable (cf_base cls)
                        end)
+               else None;
+             fp_initconv :=
+               if r_init r then
+                 Some (map (fun a => (fa_name a,
+                                      if fa_init a || fa_default a then Some (fa_convs a) else None))
+                           (r_fields r))
                else None;
              fp_assign :=
                map (fun a =>
